@@ -781,6 +781,11 @@ def check_crosstab_keys(prog, rep, m, entry):
     rep.add('X-total', f, entry, norm(tot[0]) if tot else 'total_count', f.node.lineno, ok,
             'the percentage base is the number of valid cells of the zone, counted before any category selection')
     for lp in [x for x in f.node.body if isinstance(x, ast.For)]:
+        okl = isinstance(lp.iter, ast.Call) and norm(lp.iter.func) == 'enumerate' and norm(lp.iter.args[0]) == 'unique_cats'
+        n += 1
+        rep.add('X-key', f, entry, 'for %s in %s' % (norm(lp.target), norm(lp.iter)), lp.lineno, okl,
+                'the category breaks are computed for unique_cats: break j belongs to unique_cats[j], so the loop '
+                'must enumerate all categories')
         tv = lp.target.elts[-1].id if isinstance(lp.target, ast.Tuple) else None
         jv = lp.target.elts[0].id if isinstance(lp.target, ast.Tuple) else None
         for c in calls(lp):
@@ -799,6 +804,15 @@ def check_crosstab_keys(prog, rep, m, entry):
                         'the count of category j is breaks[j] minus the previous break')
     g = m.funcs.get('_single_zone_crosstab_3d')
     if g is not None:
+        for lp in [x for x in g.node.body if isinstance(x, ast.For)]:
+            ok = isinstance(lp.iter, ast.Call) and norm(lp.iter.func) == 'enumerate' and \
+                norm(lp.iter.args[0]) == 'unique_cats' and isinstance(lp.target, ast.Tuple)
+            sel = any(isinstance(x, ast.If) and norm(x.test) == '%s in cat_ids' % norm(lp.target.elts[1]) for x in lp.body) if ok else False
+            n += 1
+            rep.add('X-key', g, entry, 'for %s in %s' % (norm(lp.target), norm(lp.iter)), lp.lineno, ok and sel,
+                    'layer j of the 3-D values belongs to unique_cats[j]: the layer index must come from enumerating '
+                    'ALL categories (unique_cats), selecting by membership in cat_ids - enumerating the selection '
+                    'pairs a category with the wrong layer')
         for c in calls(g.node):
             if short(c) == 'append':
                 okk = isinstance(c.args[0], ast.Call) and norm(c.args[0].func) == g.params[-1] and \
@@ -818,4 +832,76 @@ def check_crosstab_keys(prog, rep, m, entry):
         n += 1
         rep.add('X-agg', cn, entry, '3-D aggregate = _DEFAULT_STATS[agg]', cn.node.lineno, ok,
                 'the 3-D aggregate must be looked up by the caller\'s `agg` in the default statistics table')
+    return n
+
+
+def check_flatten_order(prog, rep, fs, entry_of):
+    """Z-flat: zones and values are flattened / reshaped in one fixed (C) order"""
+    n = 0
+    for f in fs:
+        if f.is_lambda:
+            continue
+        for c in calls(f.node):
+            if c not in f.own_nodes():
+                continue
+            if short(c) in ('ravel', 'flatten', 'reshape') and isinstance(c.func, ast.Attribute):
+                o = kw(c, 'order')
+                if o is None and short(c) in ('ravel', 'flatten') and c.args:
+                    o = c.args[0]
+                ok = o is None or const(o) == 'C'
+                n += 1
+                rep.add('Z-flat', f, entry_of(f), norm(c)[:100], c.lineno, ok,
+                        "zones, values and the result are related cell by cell through their flattened positions: every "
+                        "flatten/reshape must use the same fixed C order - order='K'/'A'/'F' depends on each array's "
+                        "memory layout, so a transposed or Fortran-ordered input pairs zone ids with other cells' values",
+                        trivial=(o is None))
+    return n
+
+
+def check_positional_id_use(prog, rep, fs, entry_of):
+    """Z2b: a caller-supplied id list has no guaranteed order: it may be tested for membership only, never indexed
+    positionally (ids[0], ids[-1], slices, searchsorted) unless it has ascending provenance."""
+    n = 0
+    by_name = {f.qualname: f for f in fs}
+    param_orders = {}
+    for _ in range(2):
+        for f in fs:
+            if f.is_lambda:
+                continue
+            oe = OrderEnv(prog, f, param_orders.get(f.qualname))
+            oe.run(f.node.body, [])
+            for c in calls(f.node):
+                t = prog.resolve_callable(f, f.module, c.func)
+                if isinstance(t, Func) and t.qualname in by_name:
+                    for p, a in list(zip(t.params, c.args)) + [(k.arg, k.value) for k in c.keywords if k.arg]:
+                        o = oe.order_of(a)
+                        cur = param_orders.setdefault(t.qualname, {})
+                        cur[p] = o if p not in cur or cur[p] == o else (USER if USER in (cur[p], o) else None)
+    for f in fs:
+        if f.is_lambda:
+            continue
+        oe = OrderEnv(prog, f, param_orders.get(f.qualname))
+        # flow-insensitive worst case over the function: a name is safe only if every definition is ASC
+        oe.run(f.node.body, [])
+        for x in f.own_nodes():
+            name = None
+            how = None
+            if isinstance(x, ast.Subscript) and isinstance(x.value, ast.Name) and x.value.id.endswith('_ids') and \
+                    isinstance(x.ctx, ast.Load):
+                sl = x.slice
+                if isinstance(sl, ast.Slice) or isinstance(const(sl, None), int):
+                    name, how = x.value.id, norm(x)
+            if isinstance(x, ast.Call) and short(x) in ('searchsorted', 'bisect_left', 'bisect_right', 'bisect'):
+                for a in x.args:
+                    if isinstance(a, ast.Name) and a.id.endswith('_ids'):
+                        name, how = a.id, norm(x)[:60]
+            if name is None:
+                continue
+            o = oe.env.get(name)
+            n += 1
+            rep.add('Z2b', f, entry_of(f), '%s (order of %s: %s)' % (how, name, o), x.lineno, o == ASC,
+                    'a requested id list arrives in the caller\'s order: using it positionally (first/last element, '
+                    'slices, binary search) silently assumes it is sorted')
+    if n == 0:
+        rep.add('Z2b', fs[0], entry_of(fs[0]), 'no positional use of a requested id list', fs[0].node.lineno, True)
     return n
